@@ -287,6 +287,9 @@ def case_mode(ctx, nch, n_batches):
     for (a, b, cs) in log:
         ctx.oblige("batch_slice_inside_recording", and_(a >= 0, and_(a < b, b <= ns)), detail={"slice": [a, b]})
         ctx.oblige("batch_reads_electrodes_only", cs == slice(None, nch) or (isinstance(cs, slice) and cs.start in (None, 0) and cs.stop == nch))
+    if log:
+        # evenly spaced from the first sample up to the end of the file (the last batch ends within a sample or two of it: int() truncation)
+        ctx.oblige("batches_span_the_recording", and_(core.eq(log[0][0], 0), and_(log[-1][1] >= ns - 2, log[-1][1] <= ns)), detail={"first": [log[0][0], log[0][1]], "last": [log[-1][0], log[-1][1]]})
     res = np.asarray(arrays._plain(res), dtype=object).reshape(-1)
     if not ctx.oblige("one_label_per_channel", res.shape[0] == nch, detail={"shape": str(res.shape)}):
         return
@@ -419,8 +422,9 @@ not_reproduced()
 import ibldsp.voltage as v
 L = np.array({L}, dtype=float); nch, nb = L.shape; ns = {m['ns']}
 calls = []; slices = []
+_ns = ns
 class SR:
-    nc = nch + 1; nsync = 1; fs = 30000; rl = ns / 30000
+    nc = nch + 1; nsync = 1; fs = 30000; rl = _ns / 30000; ns = _ns
     def __getitem__(self, k):
         slices.append((k[0].start, k[0].stop)); return np.zeros((k[0].stop - k[0].start, nch))
 def fake(raw, fs, **kw):
@@ -435,6 +439,7 @@ for c in range(nch):
     elif res[c] != vals[cnts == cnts.max()].min(): bad.append(('tie between batches not resolved to the smallest label', c, res[c], L[c].tolist()))
 for a, b in slices:
     if not (0 <= a < b <= ns): bad.append(('slice', a, b))
+if slices and (slices[0][0] != 0 or not (ns - 2 <= slices[-1][1] <= ns)): bad.append(('batches do not span the recording from its first to its last sample', slices[0], slices[-1], ns))
 print(res, bad)
 if bad: reproduced(str(bad))
 not_reproduced()
